@@ -2,7 +2,7 @@
    merge; query forms.  The facts about topn_len / argtopn_plan are proved about the GENERATED
    definitions (Gen/C03_len.v), so they are re-checked against the source on every run. *)
 From Coq Require Import ZArith QArith List Bool Lia Lqa Sorted Permutation.
-From LK Require Import Lib.QLib Lib.PyInt Lib.TopN Gen.C03_len Model.C03_pipeline Proofs.C03_checker.
+From LK Require Import Lib.QLib Lib.PyInt Lib.TopN Gen.C03_len Model.C03_pipeline Proofs.C03_argtopn Proofs.C03_checker.
 Import ListNotations.
 Open Scope Z_scope.
 
@@ -23,15 +23,6 @@ Lemma topn_len_resolve run_n config_n : topn_len run_n config_n = Some (Take (So
 Proof. destruct run_n; [apply topn_len_runtime|apply topn_len_config]. Qed.
 Lemma resolved_resolve run_n config_n : resolved run_n config_n = Some (resolve run_n config_n).
 Proof. unfold resolved. rewrite topn_len_resolve. reflexivity. Qed.
-
-Lemma argtopn_plan_cases k N :
-  argtopn_plan k N = Some (if k =? 0 then PEmpty else if (0 <=? k) && (k <? N) then PPart else PFull).
-Proof.
-  unfold argtopn_plan. cbn. destruct (k =? 0); cbn; [reflexivity|].
-  rewrite Z.geb_leb. destruct ((0 <=? k) && (k <? N)) eqn:E.
-  - apply andb_true_iff in E. destruct E as [E1 E2]. rewrite E1. cbn. rewrite E2. reflexivity.
-  - destruct (0 <=? k); cbn; [|reflexivity]. cbn in E. rewrite E. reflexivity.
-Qed.
 
 (* all three plans are "the first want_len of the sorted NaN-free rows" *)
 Lemma argtopn_rows_firstn l k :
